@@ -264,8 +264,12 @@ func runOneCrew(id int, c gen.CrewCase) (line crewLine) {
 			changed[mid] = map[string]interface{}{"state": st, "src": srcName(ch.SpecSrc), "deleted": ch.Deleted}
 		}
 		flat := []string{}
+		batches := []string{}
 		last := -1.0
 		for _, batch := range r.Emitted {
+			if len(batch) > 0 {
+				batches = append(batches, gen.Canon(batch))
+			}
 			idx := map[string]float64{}
 			for _, m := range batch {
 				flat = append(flat, gen.Canon(m))
@@ -289,12 +293,13 @@ func runOneCrew(id int, c gen.CrewCase) (line crewLine) {
 			}
 		}
 		sort.Strings(flat)
+		sort.Strings(batches)
 		applyChanges(store, r.Changed)
 		lv, sv := liveView(cr), storeView(store)
 		if gen.Canon(lv) != gen.Canon(sv) {
 			storeEq = false
 		}
-		steps = append(steps, map[string]interface{}{"changed": changed, "emitted": flat, "live": lv, "store": sv})
+		steps = append(steps, map[string]interface{}{"changed": changed, "emitted": flat, "batches": batches, "live": lv, "store": sv})
 		snap := map[string]*crew.Machine{}
 		for mid, m := range store {
 			cp := &crew.Machine{SpecSource: m.SpecSource}
